@@ -800,11 +800,95 @@ func countSleeps(marker string) int {
 
 func shapeClass(n string) string { return n }
 
+// ---------------------------------------------------------------------------------------------
+// C02 / C08 on the real runner: the mock runner of the model-checking units assumes that a command
+// which does not end with exit status 0 - whatever the way it dies - is reported as a failed task.
+// This unit checks that assumption, and the consequences the statements attach to it, on real processes.
+
+func runRealFailures(prop string) procxResult {
+	res := procxResult{prop: prop}
+	kinds := []struct{ n, cmd string }{
+		{"exit-1", "exit 1"}, {"exit-3", "sh -c 'exit 3'"}, {"false", "false"}, {"sigkill", "sh -c 'kill -KILL $$'"}, {"sigterm", "sh -c 'kill -TERM $$'"},
+		{"sigsegv", "sh -c 'kill -SEGV $$'"}, {"not-found", "verif-no-such-command-xyz"}, {"second-command-fails", "true"},
+	}
+	for _, k := range kinds {
+		for _, allow := range []bool{false, true} {
+			for _, cont := range []bool{false, true} {
+				script := []string{k.cmd}
+				if k.n == "second-command-fails" {
+					script = []string{"printf first", "sh -c 'exit 4'", "printf third"}
+				}
+				cfg := PipeCfg{Conc: 1, QL: -1, Continue: cont,
+					Graph:  map[string][]string{"f": nil, "d": {"f"}, "s": nil},
+					Allow:  map[string]bool{"f": allow},
+					Script: map[string][]string{"f": script, "d": {"printf dependent-ran"}, "s": {"sleep 0.4", "printf sibling-ran"}}}
+				pw := newProcWorld(mkDefs(map[string]PipeCfg{"p": cfg}), 200*time.Millisecond)
+				j, err := pw.r.ScheduleAsync("p", prunner.ScheduleOpts{})
+				if err != nil {
+					panic(err)
+				}
+				v, ok := pw.wait(j.ID, 30*time.Second)
+				res.Cases++
+				res.Distinct++
+				desc := fmt.Sprintf("task f runs %q (allow_failure=%v, continue_running_tasks_after_failure=%v)", script, allow, cont)
+				cls := k.n + fmt.Sprintf("/allow=%v/continue=%v", allow, cont)
+				if !ok {
+					res.add("job-did-not-finish:"+cls, desc+": the job did not finish")
+					pw.close()
+					continue
+				}
+				task := map[string]prunner.VerifTask{}
+				for _, t := range v.Tasks {
+					task[t.Name] = t
+				}
+				dOut, dErr := pw.output(j.ID, "d", "stdout")
+				dRan := dErr == nil && string(dOut) == "dependent-ran"
+				sOut, _ := pw.output(j.ID, "s", "stdout")
+				plain := v.Completed && !v.Canceled && v.LastError == ""
+				if allow {
+					if !dRan {
+						res.add("allow-failure-blocks-dependent:"+k.n, desc+": the dependent task did not run")
+					}
+					if !plain || task["f"].Errored {
+						res.add("allow-failure-fails-job:"+k.n, fmt.Sprintf("%s: the job ends completed=%v canceled=%v lastError=%q, task f errored=%v", desc, v.Completed, v.Canceled, v.LastError, task["f"].Errored))
+					}
+					if string(sOut) != "sibling-ran" {
+						res.add("allow-failure-stops-sibling:"+k.n, desc+": the independent task did not run to its end")
+					}
+				} else {
+					if dRan || task["d"].HasStart {
+						res.add("dependent-of-failed-task-runs:"+k.n, desc+": the task depending on the failed task ran")
+					}
+					if plain {
+						res.add("failed-job-reported-success:"+k.n, desc+": the job is reported completed, not canceled, without error")
+					}
+					if !task["f"].Errored {
+						res.add("failed-task-not-reported-errored:"+k.n, fmt.Sprintf("%s: task f is reported errored=%v status=%q exit=%d", desc, task["f"].Errored, task["f"].Status, task["f"].ExitCode))
+					}
+					if cont && string(sOut) != "sibling-ran" {
+						res.add("independent-task-not-run-to-end:"+k.n, desc+": the independent task did not run to its natural end although continue_running_tasks_after_failure is set")
+					}
+					if !cont && string(sOut) == "sibling-ran" && k.n != "second-command-fails" {
+						res.add("fail-fast-does-not-stop-sibling:"+k.n, desc+": the independent task (0.4s) ran to its end although the failure came first")
+					}
+				}
+				if len(res.Samples) < 2 {
+					res.Samples = append(res.Samples, desc)
+				}
+				pw.close()
+			}
+		}
+	}
+	return res
+}
+
 func runProcxUnit(u Unit) UnitResult {
 	res := UnitResult{Name: u.Name, Exhaustive: true, Unbounded: true}
 	FreePause = 5 * time.Millisecond
 	var r procxResult
 	switch u.Prop {
+	case "C02", "C08":
+		r = runRealFailures(u.Prop)
 	case "C18":
 		r = runC18()
 	case "C19":
